@@ -32,7 +32,7 @@ from .common import Check, Err, Raw, cval
 
 IMPORTS = ("From Coq Require Import List NArith ZArith Bool.\n"
            "From Verif Require Import Base.Val C21.Model_C21.")
-ANCHORS = ["ebuild/triggers.py::collapse_envd", "ebuild/triggers.py::simple_chksum_compare",
+ANCHORS = ["ebuild/triggers.py::_strip_offset", "ebuild/triggers.py::collapse_envd", "ebuild/triggers.py::simple_chksum_compare",
            "ebuild/triggers.py::gen_config_protect_filter", "ebuild/triggers.py::gen_collision_ignore_filter",
            "ebuild/triggers.py::ConfigProtectInstall", "ebuild/triggers.py::ConfigProtectInstall_restore",
            "ebuild/triggers.py::ConfigProtectUninstall", "ebuild/triggers.py::FileCollision",
@@ -516,7 +516,9 @@ def oracle(case, res):
             if not written:
                 what = "the incoming file was not written as ._cfgNNNN_<name> beside the protected file"
             elif ident:
-                if not any(w in ident for w in written):
+                fresh = [q for q in post if q not in pre
+                         and re.fullmatch(re.escape(d.rstrip("/")) + r"/\._cfg-?\d+_" + re.escape(n), q)]
+                if fresh or not any(w in ident for w in written):
                     what = "an identical pending update exists but its number was not reused"
             elif not any(all(w > k for k in pend) for w in written):
                 what = "the new ._cfg number does not exceed every existing number"
